@@ -1086,6 +1086,7 @@ func init() {
 			{Name: "e2e-files", N: n(16, 80), Run: runE2EFiles},
 			{Name: "e2e-dir", N: n(12, 30), Run: runE2EDir},
 			{Name: "e2e-tty", N: n(8, 16), Run: runE2ETty},
+			{Name: "e2e-mates-unequal", N: n(16, 96), Run: runE2EMatesUnequal},
 		},
 		Cmds:          []string{"obiconvert", "obigrep", "obiannotate"},
 		MinNontrivial: 500,
